@@ -27,10 +27,10 @@ from .. import pyside, translate
 from .. import neutron_common as nc
 
 RULE = ("exhaustive: every atom with neutron data × 5 wavelengths × 4 entry points, all its ions, "
-        "every node/midpoint/outside of the energy-dependent tables; random flat compounds of 1..6 "
-        "distinct atoms (elements, isotopes, ions, energy-dependent, 8% with an atom without data), "
+        "every node/midpoint/outside of the energy-dependent tables; random compounds (85% flat with 1..6 "
+        "distinct atoms, 15% nested to depth 3 with repeated atoms; (elements, isotopes, ions, energy-dependent, 8% with an atom without data), "
         "density or natural_density log-uniform in [1e-3, 25], wavelength log-uniform in [0.05, 50] "
-        "plus table nodes/midpoints/ends, as wavelength=, energy= or a vector of 1..5; a case is "
+        "plus table nodes/midpoints/ends, as wavelength=, energy=, default or a vector of 1..5, 20% of the scalar cases followed by the same compound 2e-5 further; a case is "
         "non-trivial when it has >= 2 atoms, an energy-dependent atom, an ion, or a vector; "
         "distinct by canonical input")
 
@@ -49,9 +49,17 @@ def case_key(case):
 
 def real_compound(pt, case):
     dens = case["density"]
+    if "struct" in case:
+        from periodictable.formulas import formula
+        return formula(pyside.struct_objs(_tuples(case["struct"]), pt.elements), density=dens)
     if case.get("natural"):
         return nc.compound_obj(pt, [(tuple(a[:3]), a[3]) for a in case["atoms"]], natural_density=dens)
     return nc.compound_obj(pt, [(tuple(a[:3]), a[3]) for a in case["atoms"]], density=dens)
+
+
+def _tuples(s):
+    """JSON round trip: atom keys back to tuples"""
+    return [(c, tuple(f) if len(f) == 3 and all(isinstance(v, int) for v in f) else _tuples(f)) for c, f in s]
 
 
 def eval_real(pt, case):
@@ -81,6 +89,8 @@ def eval_real(pt, case):
 
 def model_line(case, density, atoms):
     toks = nc.atoms_tokens(atoms)
+    if "struct" in case:       # nested formula: the model applies Items.atoms (C02) itself
+        return "scats %s %s %s" % (f2h(density), f2h(case["w"][0]), pyside.struct_tokens(_tuples(case["struct"])))
     if case["mode"] == "wavelength":
         return "scat %s %s %s" % (f2h(density), f2h(case["w"][0]), toks)
     if case["mode"] == "energy":
@@ -146,7 +156,8 @@ def stage_atoms(run, pt, orc, tl, pools, quick):
         ws = list(WAVELENGTHS)
         if atom.neutron.nsf_table is not None:
             g = atom.neutron.nsf_table[0]
-            ws += [float(g[0]), float(g[-1]), float(g[len(g) // 2]), float(0.5 * (g[3] + g[4]))]
+            ws += [float(g[0]), float(g[-1]), float(g[len(g) // 2]), float(0.5 * (g[3] + g[4])),
+                   float(0.5 * (g[3] + g[4])) * (1 + 1e-5)]   # second call next to the previous one
         for w in ws:
             lines.append("atom %d %d %s" % (z, A, f2h(w)))
             lines.append("scat %s %s 1 %d %d 0 %s" % (f2h(atom.density), f2h(w), z, A, f2h(1.0)))
@@ -278,6 +289,11 @@ def stage_tables(run, pt, orc, tl, pools):
 
 
 def gen_case(rng, pools):
+    if rng.random() < 0.15:
+        s = nc.gen_struct(rng, pools)
+        flat = pyside.flat_counts(s)
+        return dict(struct=s, atoms=[[k[0], k[1], k[2], float(v)] for k, v in flat.items()],
+                    density=nc.gen_density(rng), mode="wavelength", w=[nc.gen_wavelength(rng, pools)])
     atoms = nc.gen_atoms(rng, pools, nodata=0.08 if rng.random() < 0.5 else 0.0)
     r = rng.random()
     case = dict(atoms=[[k[0], k[1], k[2], c] for k, c in atoms], density=nc.gen_density(rng))
@@ -351,7 +367,16 @@ def run(run: Run) -> int:
     stage_ions(run, pt, orc, tl, pools, quick)
     run_cases(run, pt, orc, tl, FIXED_CASES, "neutron_scattering", tag="fixed")
     n = 2500 if quick else 100000
-    cases = [gen_case(run.rng, pools) for _ in range(n)]
+    cases = []
+    while len(cases) < n:
+        c = gen_case(run.rng, pools)
+        cases.append(c)
+        if c["mode"] == "wavelength" and run.rng.random() < 0.2:
+            # the same compound again at a wavelength 2e-5 away: a result remembered from the
+            # previous call (stale cache) would show here
+            twin = dict(c)
+            twin["w"] = [c["w"][0] * (1 + 2e-5)]
+            cases.append(twin)
     for i in range(0, n, 5000):
         run_cases(run, pt, orc, tl, cases[i:i + 5000], "neutron_scattering")
     run.exhaustive = False
